@@ -19,6 +19,21 @@ from ._utils import _enum_to_index, _int_to_index, _str_to_index
 from .enum_array import EnumArray
 
 
+def _is_member_of(cls, item) -> bool:
+    """Whether ``item`` is a member of ``cls``.
+
+    Enumerations compare equal by class name (a re-declared enumeration stays
+    equal to the one it replaces): on top of that, the item has to stand at
+    its own index under its own name in ``cls``.
+
+    """
+    return bool(
+        cls == item.__class__
+        and item.index < len(cls.names)
+        and cls.names[item.index] == item.name
+    )
+
+
 class Enum(t.Enum, metaclass=EnumType):
     """Enum based on `enum34 <https://pypi.python.org/pypi/enum34/>`_.
 
@@ -192,7 +207,7 @@ class Enum(t.Enum, metaclass=EnumType):
             indices = _int_to_index(cls, value)
         elif _is_str_array(value):  # type: ignore[unreachable]
             indices = _str_to_index(cls, value)
-        elif _is_enum_array(value) and all(cls == item.__class__ for item in value):
+        elif _is_enum_array(value) and all(_is_member_of(cls, item) for item in value):
             indices = _enum_to_index(value)
         else:
             raise EnumEncodingError(cls, value)
@@ -207,7 +222,7 @@ class Enum(t.Enum, metaclass=EnumType):
         elif _is_str_array_like(value):  # type: ignore[unreachable]
             indices = _str_to_index(cls, value)
         elif _is_enum_array_like(value) and all(
-            cls == item.__class__ for item in value
+            _is_member_of(cls, item) for item in value
         ):
             indices = _enum_to_index(value)
         else:
